@@ -45,7 +45,8 @@ fn entry_line() -> BoxedStrategy<Vec<u8>> {
     let text = || prop::sample::select(vec!["pkg-1.0", "foo>=1", "bar-[0-9]*", "0644", "root", "wheel", "é"]).prop_map(|s| s.as_bytes().to_vec()).boxed();
     prop_oneof![
         30 => file_name(),
-        12 => Just(b"@ignore".to_vec()),
+        10 => Just(b"@ignore".to_vec()),
+        3 => prop::sample::select(vec![&b"@ignore "[..], b"@ignore  ", b"@ignore \t", b"@ignore\t"]).prop_map(|s| s.to_vec()),
         10 => with("@cwd", path_arg()),
         2 => with("@src", path_arg()),
         2 => with("@cd", path_arg()),
